@@ -72,6 +72,9 @@ func amount(dim int64, q resource.Quantity) int64 {
 	return q.MilliValue()
 }
 
+var stateName = map[int64]schedulingv1beta1.QueueState{0: "", 1: schedulingv1beta1.QueueStateOpen, 2: schedulingv1beta1.QueueStateClosed,
+	3: schedulingv1beta1.QueueStateClosing, 4: schedulingv1beta1.QueueStateUnknown}
+
 type rl [][2]int64 // (dim, amount), ascending dims
 
 func (l rl) toList() v1.ResourceList {
@@ -135,11 +138,12 @@ const (
 	kCreate = 1
 	kUpdate = 2
 	kDelete = 3
-	kEnv    = 4 // status update by the scheduler: allocated pods of a queue (not an admission request)
+	kEnv    = 4 // status update by the scheduler / queue controller: allocated pods and state (-1 = unchanged); not an admission request
 )
 
 type qspec struct {
 	name, parent, alloc int64
+	state              int64 // Status.State: 0 "", 1 Open, 2 Closed, 3 Closing, 4 Unknown
 	cap, des, guar      rl
 }
 
@@ -149,7 +153,7 @@ type request struct {
 }
 
 func (q qspec) enc() []int64 {
-	out := []int64{q.name, q.parent, q.alloc}
+	out := []int64{q.name, q.parent, q.alloc, q.state}
 	out = append(out, q.cap.enc()...)
 	out = append(out, q.des.enc()...)
 	return append(out, q.guar.enc()...)
@@ -165,11 +169,11 @@ func (r request) enc() []int64 {
 	case kDelete:
 		return []int64{r.kind, r.q.name}
 	}
-	return []int64{r.kind, r.q.name, r.q.alloc}
+	return []int64{r.kind, r.q.name, r.q.alloc, r.q.state}
 }
 
 func decQueue(r *tokReader) qspec {
-	q := qspec{name: r.next(), parent: r.next(), alloc: r.next()}
+	q := qspec{name: r.next(), parent: r.next(), alloc: r.next(), state: r.next()}
 	q.cap, q.des, q.guar = r.rl(), r.rl(), r.rl()
 	return q
 }
@@ -184,7 +188,7 @@ func decRequest(r *tokReader) request {
 	case kDelete:
 		return request{k, qspec{name: r.next()}}
 	}
-	return request{k, qspec{name: r.next(), alloc: r.next()}}
+	return request{k, qspec{name: r.next(), alloc: r.next(), state: r.next()}}
 }
 
 type config struct{ maxDepth, allocCheck, rootProt int64 }
@@ -271,6 +275,7 @@ func buildQueue(q qspec) *schedulingv1beta1.Queue {
 		},
 	}
 	o.Spec.Guarantee.Resource = q.guar.toList()
+	o.Status.State = stateName[q.state]
 	if q.alloc != 0 {
 		o.Status.Allocated = v1.ResourceList{v1.ResourcePods: *resource.NewQuantity(q.alloc, resource.DecimalSI)}
 	}
@@ -426,9 +431,14 @@ func (w *world) step1(r request) int64 {
 			return vNotInvoked
 		}
 		n := old.DeepCopy()
-		n.Status.Allocated = nil
-		if r.q.alloc != 0 {
-			n.Status.Allocated = v1.ResourceList{v1.ResourcePods: *resource.NewQuantity(r.q.alloc, resource.DecimalSI)}
+		if r.q.alloc >= 0 {
+			n.Status.Allocated = nil
+			if r.q.alloc != 0 {
+				n.Status.Allocated = v1.ResourceList{v1.ResourcePods: *resource.NewQuantity(r.q.alloc, resource.DecimalSI)}
+			}
+		}
+		if r.q.state >= 0 {
+			n.Status.State = stateName[r.q.state]
 		}
 		w.indexer.Update(n)
 		return vAllowed
@@ -509,6 +519,11 @@ func specOf(o *schedulingv1beta1.Queue) qspec {
 	}
 	if a, ok := o.Status.Allocated[v1.ResourcePods]; ok {
 		q.alloc = a.Value()
+	}
+	for k, n := range stateName {
+		if n == o.Status.State {
+			q.state = k
+		}
 	}
 	return q
 }
